@@ -1,33 +1,12 @@
-(* GenEq/Transfer.v — the headline theorems restated about the definitions REGENERATED from /repo's current source.
-   Each is one rewrite with the translation equality of its function (GenEq/<f>.v) followed by the theorem about the model:
+(* GenEq/Transfer.v — C02 restated about the definitions REGENERATED from /repo's current source (read_frame and the three deframers).
+   Each statement is one rewrite with the translation equality of its function (GenEq/<f>.v) followed by the theorem about the model:
    this is the whole chain  source --translator--> Gen.f --GenEq--> Model.f --Facets--> property  checked by coqc on every run.
-   (The other theorems transfer the same way; these are the ones spelled out.) *)
+   The other properties have their source-level statements in GenEq/ApiSource.v (C01 C03 C04) and GenEq/SrcC<nn>.v. *)
 From FB Require Import Sem.Base Sem.Lemmas Model.Fb Model.Deframers Model.Adapters Spec.Api Spec.Frames Spec.StdAdapters
   Facets.Fb Facets.Fb2 Facets.DfContract Facets.Rf Facets.RfInv Facets.RfRefine Facets.Frames Facets.C02 Facets.Adapters.
-From FB Require Gen.FbGen Gen.AdaptersGen Gen.DeframersGen GenEq.Fb_read_frame GenEq.Fb_read_bytes GenEq.Ad_chain_read GenEq.Ad_take_read
-  GenEq.Df_deframe_line GenEq.Df_deframe_crlf GenEq.Df_deframe_null.
+From FB Require Gen.FbGen Gen.DeframersGen.
+From FB Require Import GenEq.RfSource GenEq.SrcC05.
 Open Scope Z_scope.
-
-(* two loop bodies that agree on the states satisfying an invariant the second one keeps give the same loop from such a state *)
-Lemma loop_fuel_ext_inv {S R} (I : S -> Prop) (b1 b2 : M S (option R)) :
-  (forall w, I w -> b1 w = b2 w) -> (forall w v w', I w -> b2 w = Val v w' -> I w') ->
-  forall fuel w, I w -> loop_fuel fuel b1 w = loop_fuel fuel b2 w.
-Proof.
-  intros He Hk. induction fuel as [|f IH]; intros w Hw; [reflexivity|].
-  cbn [loop_fuel]. unfold bind. rewrite (He w Hw). destruct (b2 w) as [[v|] w'|w'] eqn:E; try reflexivity.
-  apply IH. exact (Hk w None w' Hw E).
-Qed.
-
-Lemma read_frame_source_eq SIZE chk RS (R : Reader RS) df : sane R -> (forall u, zlen u <= SIZE -> df_in_bounds df u) ->
-  forall fuel w, Inv SIZE (fst w) -> FbGen.read_frame SIZE chk R fuel df w = Fb.read_frame chk R fuel df w.
-Proof.
-  intros HR Hdf fuel w HI. unfold FbGen.read_frame, Fb.read_frame.
-  apply (loop_fuel_ext_inv (fun w => Inv SIZE (fst w))); [| |exact HI].
-  - intros w0 H0. exact (GenEq.Fb_read_frame.gen_eq SIZE chk RS R df w0 H0).
-  - intros [s rs] v [s' rs'] H0 E. cbn [fst] in *.
-    apply (read_frame_body_inv SIZE chk R df HR s rs v s' rs' H0); [|exact E].
-    apply Hdf. rewrite (zlen_unread SIZE s H0). unfold len_. destruct H0 as (H1&H2&H3&H4&H5). lia.
-Qed.
 
 (* C02: one call of the read_frame that is in the tree now, under any chunking, returns `next` of unread ++ unpulled *)
 Theorem c02_call_source : forall SIZE chk (R : Reader stream_reader) df,
@@ -56,9 +35,9 @@ Theorem c02_provided_source : forall chk SIZE, SIZE <= usize_max ->
 Proof.
   intros chk SIZE Hs. destruct (provided_contracts chk SIZE Hs) as (H1 & H2 & H3).
   split; [|split].
-  - apply (df_contract_ext SIZE (df_line chk)); [|exact H1]. intros d. unfold df_line, df_of. first [reflexivity | rewrite (GenEq.Df_deframe_line.gen_eq chk d tt); reflexivity].
-  - apply (df_contract_ext SIZE (df_crlf chk)); [|exact H2]. intros d. unfold df_crlf, df_of. first [reflexivity | rewrite (GenEq.Df_deframe_crlf.gen_eq chk d tt); reflexivity].
-  - apply (df_contract_ext SIZE (df_null chk)); [|exact H3]. intros d. unfold df_null, df_of. first [reflexivity | rewrite (GenEq.Df_deframe_null.gen_eq chk d tt); reflexivity].
+  - apply (df_contract_ext SIZE (df_line chk)); [|exact H1]. intros d. symmetry. apply df_line_source_eq.
+  - apply (df_contract_ext SIZE (df_crlf chk)); [|exact H2]. intros d. symmetry. apply df_crlf_source_eq.
+  - apply (df_contract_ext SIZE (df_null chk)); [|exact H3]. intros d. symmetry. apply df_null_source_eq.
 Qed.
 Theorem c02_line_source : forall SIZE chk (R : Reader stream_reader), implements R stream_ar -> SIZE <= usize_max ->
   forall s st fuel, Inv2 SIZE s -> zlen (sr_rest st) < Z.of_nat fuel ->
@@ -70,22 +49,7 @@ Proof.
   exact (c02_call_source SIZE chk R df HR (proj1 (c02_provided_source chk SIZE Hs)) s st fuel HI Hf).
 Qed.
 
-(* C04: the read_bytes that is in the tree now panics exactly when asked for more than len(), leaving the buffer as it was *)
-Theorem c04_read_bytes_source : forall SIZE chk s n, Inv SIZE s -> 0 <= n <= usize_max -> len_ s < n ->
-  FbGen.read_bytes SIZE chk n s = Panic s.
-Proof. intros SIZE chk s n HI Hn Hlt. rewrite (GenEq.Fb_read_bytes.gen_eq SIZE chk n s HI). apply (read_bytes_panic SIZE); assumption. Qed.
-
-(* C08 / C09: the adapters that are in the tree now are std's Chain / Take, call for call *)
-Theorem c08_sim_source : forall R1S RWS (R1 : Reader R1S) (R2 : Reader RWS) buf w,
-  map_res abs_chain (AdaptersGen.chain_read R1 R2 buf w) = std_chain_read R1 R2 buf (abs_chain w).
-Proof. intros. rewrite GenEq.Ad_chain_read.gen_eq. apply chain_sim. Qed.
-Theorem c09_sim_source : forall RWS chk (R2 : Reader RWS) buf w, 0 <= t_rem w ->
-  (forall dest d' n r', rd R2 (t_rw w) dest = (ROk d' n, r') -> 0 <= n <= zlen dest) ->
-  map_res abs_take (AdaptersGen.take_read chk R2 buf w) = std_take_read R2 buf (abs_take w).
-Proof. intros RWS chk R2 buf w H1 H2. rewrite GenEq.Ad_take_read.gen_eq. apply take_sim; assumption. Qed.
-
 Print Assumptions c02_call_source.
-Print Assumptions c08_sim_source.
 
 (* the engine audits every GenEq module under this name *)
-Definition gen_eq := (c02_call_source, c02_provided_source, c02_line_source, c04_read_bytes_source, c08_sim_source, c09_sim_source).
+Definition gen_eq := (c02_call_source, c02_provided_source, c02_line_source).
